@@ -1087,6 +1087,48 @@ fn exact_case(rule: &'static str) -> impl Strategy<Value = QCase> {
     })
 }
 
+/// Polynomials that vanish on the 3, 5 or 9 equally spaced nodes of the first Romberg levels (integer or
+/// half-integer nodes, small integer cofactor, so the library's evaluations there are exactly 0): every coarse
+/// tableau entry is then exactly 0 and successive diagonal entries tie bit for bit, although the integral is not 0.
+/// The rule is called with tolerance 0 like every other exactness case, so k levels must still deliver degree 2k-1.
+fn romberg_roots_case() -> impl Strategy<Value = QCase> {
+    (0usize..3, -4i32..=4, 0usize..3, prop::collection::vec(-3i32..=3, 1..=3), 0usize..5, any::<bool>()).prop_map(|(jsel, a0, hsel, q, extra, swap)| {
+        let nodes = [3usize, 5, 9][jsel];
+        let h = if nodes == 9 { [1.0, 0.5, 1.0][hsel] } else { [1.0, 0.5, 2.0][hsel] };
+        let build = |a0: f64, h: f64, q: &[f64]| -> Vec<f64> {
+            let mut c: Vec<f64> = q.to_vec();
+            for j in 0..nodes {
+                let r = a0 + j as f64 * h;
+                // c(x) * (x - r)
+                let mut d = vec![0.0; c.len() + 1];
+                for (k, v) in c.iter().enumerate() {
+                    d[k + 1] += v;
+                    d[k] -= r * v;
+                }
+                c = d;
+            }
+            c
+        };
+        let mut qf: Vec<f64> = q.iter().map(|v| *v as f64).collect();
+        if *qf.last().unwrap() == 0.0 {
+            *qf.last_mut().unwrap() = 1.0;
+        }
+        let (mut a, mut hh) = (a0 as f64, h);
+        let mut c = build(a, hh, &qf);
+        if !c.iter().all(|v| v.abs() <= 1e6) {
+            a = 0.0;
+            hh = 1.0;
+            qf = vec![1.0];
+            c = build(a, hh, &qf);
+        }
+        let deg = c.len() - 1;
+        let n = ((deg + 2) / 2 + extra).min(20);
+        let b = a + (nodes - 1) as f64 * hh;
+        let (a, b) = if swap { (b, a) } else { (a, b) };
+        QCase { rule: "romberg".into(), f: Integrand::poly(c), a, b, n, tol: 0.0 }
+    })
+}
+
 /// a catalogue member with an interval inside its domain; `resolve` additionally keeps the interval short
 /// enough for the adaptive-stopping clause
 fn smooth_case(resolve: bool) -> impl Strategy<Value = (Integrand, f64, f64)> {
@@ -1217,7 +1259,7 @@ fn sample_value() -> impl Strategy<Value = f64> {
 
 fn samp_case(maxn: usize) -> impl Strategy<Value = SampCase> {
     let n = prop_oneof![4 => 2usize..=8, 3 => 9usize..=100, 1 => 101usize..=maxn];
-    (n, 0u8..6).prop_flat_map(|(n, kind)| {
+    (n, 0u8..7).prop_flat_map(|(n, kind)| {
         let y = prop::collection::vec(sample_value(), n);
         match kind {
             0 => y.prop_map(|y| SampCase { y, x: None, dx: None, kind: "".into() }).boxed(),
@@ -1228,6 +1270,22 @@ fn samp_case(maxn: usize) -> impl Strategy<Value = SampCase> {
                 .prop_map(|(y, x0, h)| {
                     let x = (0..y.len()).map(|i| x0 + i as f64 * h).collect();
                     SampCase { y, x: Some(x), dx: None, kind: "uniform".into() }
+                })
+                .boxed(),
+            // an evenly spaced dyadic grid whose interior nodes are displaced: the first spacing, the last spacing and
+            // the mean spacing all still equal h exactly, so "is it uniform?" shortcuts that look at a few spacings
+            // misjudge it
+            6 => (y, -64i32..=64, 0usize..6, prop::collection::vec(-3i32..=3, n))
+                .prop_map(|(y, k0, hs, disp)| {
+                    let h = [0.0625, 0.25, 0.5, 1.0, 2.0, 8.0][hs];
+                    let n = y.len();
+                    let x = (0..n)
+                        .map(|i| {
+                            let d = if i >= 2 && i + 2 < n { disp[i] as f64 * h / 8.0 } else { 0.0 };
+                            (k0 as f64) * h + i as f64 * h + d
+                        })
+                        .collect();
+                    SampCase { y, x: Some(x), dx: None, kind: "uniform-ends-displaced-interior".into() }
                 })
                 .boxed(),
             3 | 4 => (y, -1000.0f64..1000.0, prop::collection::vec(1e-3f64..10.0, n))
@@ -1335,8 +1393,8 @@ pub fn self_test() -> Result<(), String> {
 
 pub fn run(ctx: &mut Ctx) {
     ctx.rule = "integrands are data (polynomial coefficients or catalogue id + parameters) with an interval in +-1e3 (dyadic and random end-points, a > b in about half and a = b in 1/16 of the cases); \
-exactness: every (rule, monomial degree, panel count 1..=64 / level 2..=20) on fixed intervals is enumerated, then random polynomials (1/4 monomials) with panel counts up to 4096; \
-error clauses: 21 catalogue members with every parameter combination, intervals inside the member's domain; samples: lengths 2..=1e4 with default spacing, dx, uniform, increasing and non-monotone x. \
+exactness: every (rule, monomial degree, panel count 1..=64 / level 2..=20) on fixed intervals is enumerated, then random polynomials (1/4 monomials) with panel counts up to 4096, and for Romberg polynomials built to vanish on the 3/5/9 equispaced nodes of the coarse levels (bit-exact ties of successive estimates); \
+error clauses: 21 catalogue members with every parameter combination, intervals inside the member's domain; samples: lengths 2..=1e4 with default spacing, dx, uniform, increasing and non-monotone x, and dyadic uniform grids with displaced interior nodes (first, last and mean spacing still equal). \
 Non-trivial: degree >= 1 or non-polynomial integrand, and a != b; distinct by (sub-check, rule, integrand, interval, n, tolerance)"
         .into();
     ctx.assumptions = vec![
@@ -1420,6 +1478,7 @@ Non-trivial: degree >= 1 or non-polynomial integrand, and a != b; distinct by (s
     let th = 8;
     ctx.run_prop_par("trapz/affine-exact", ctx.scale(12_000, 300_000), th, || exact_case("trapz"), check_exact);
     ctx.run_prop_par("romberg/poly-exact", ctx.scale(8_000, 200_000), 16, || exact_case("romberg"), check_exact);
+    ctx.run_prop_par("romberg/poly-exact", ctx.scale(1_000, 20_000), 8, || romberg_roots_case(), check_exact);
     ctx.run_prop_par("quad5/poly-exact", ctx.scale(12_000, 300_000), th, || exact_case("quad5"), check_exact);
     for rule in RULES {
         let n = ctx.scale(4_000, 100_000);
